@@ -283,6 +283,18 @@ func (sc *Scenario) directOracle(e expectation, obs *Obs, res *hx.Result, input 
 		if o.Saved != nil {
 			saved = o.Saved.Category
 		}
+		if e.catIndex >= 0 {
+			// the defect repaired by "fix: random router routes via the category it drew": the drawn category was
+			// looked up again by UUID and an earlier category carrying the same UUID was taken
+			for i := 0; i < e.catIndex; i++ {
+				c := sc.Cats[i]
+				if c.UUID == e.catUUID && sc.Exits[c.Exit].UUID == o.StepExit && (o.Saved == nil || o.Saved.Category == c.Name) {
+					res.Fail("random:duplicate-category-uuid:first-uuid-wins", input, fmt.Sprintf("draw selects category %d %q (exit %s) but the run left by category %d %q (exit %s), the first one with the same UUID",
+						e.catIndex, sc.Cats[e.catIndex].Name, sc.Exits[sc.Cats[e.catIndex].Exit].UUID, i, c.Name, o.StepExit))
+					return
+				}
+			}
+		}
 		fail("exit", fmt.Sprintf("left by %q with saved category %q; the statement prescribes category %s = %v (winner case %d, %d matching)",
 			o.StepExit, saved, e.catUUID, want, e.winner, e.nMatching))
 		return
